@@ -1,6 +1,7 @@
 package sym
 
 import (
+	"net/http"
 	"fmt"
 	"go/types"
 	"math"
@@ -665,6 +666,10 @@ func registerIntrinsics(e *Engine) {
 			}
 		}
 		return e.callModel("ReplacerReplace", args[1], mkStrSlice(pairs))
+	}
+	// net/http.DetectContentType on concrete bytes: the real function
+	r["net/http.DetectContentType"] = func(e *Engine, fr *frame, args []Value, site ssa.CallInstruction) Value {
+		return http.DetectContentType(e.bytesOf(args[0], "DetectContentType"))
 	}
 	r["strconv.Quote"] = func(e *Engine, fr *frame, args []Value, site ssa.CallInstruction) Value {
 		return strconv.Quote(mustStr(e, args[0], "strconv.Quote"))
